@@ -320,6 +320,9 @@ func (th *Thread) ropeEq(a, b Str) *Term {
 	}
 	r := m.ts.Bool(true)
 	for i := range sa {
+		if r.IsFalse() {
+			return r
+		}
 		x, y := sa[i], sb[i]
 		switch {
 		case x.ID == "" && y.ID == "":
@@ -331,14 +334,15 @@ func (th *Thread) ropeEq(a, b Str) *Term {
 			}
 		case x.ID == "" || y.ID == "":
 			if x.Tok == nil && y.Tok == nil {
-				m.unsupported("comparison of an opaque blob with literal text")
+				m.res.Assumes = appendUniq(m.res.Assumes, "opaque strings (symbolic length, abstract content) differ from each other and from every literal")
 			}
 			return m.ts.Bool(false)
 		case x.ID == y.ID:
 		case x.Tok != nil && y.Tok != nil:
 			r = m.ts.And(r, m.ts.Eq(x.Tok, y.Tok))
 		default:
-			m.unsupported("comparison of opaque blobs")
+			m.res.Assumes = appendUniq(m.res.Assumes, "opaque strings (symbolic length, abstract content) differ from each other and from every literal")
+			return m.ts.Bool(false)
 		}
 	}
 	return r
